@@ -67,7 +67,7 @@ def job_for(jid, prog, target):
 def run(ctx):
     ctx.rule = ("(1) in-process: every rule of the catalogue (41 rule-breaking edits: instantiate/migrate count, constructor, interface restrictions, reply-table conflicts, "
                 "payload/data marker misuse, unknown attribute arguments) applied to generated hosts: the host expands clean, the mutant must be rejected by an emitted diagnostic "
-                "(a panic does not count); (2) in-process, exhaustive: every ordered reply table of <=3 methods over two names x three outcomes x two payload signatures against "
+                "(a panic does not count); (2) in-process, exhaustive: every ordered reply table of <=3 methods over two names x three outcomes x four payload signatures (different arity, different type, same type constructor with different arguments) against "
                 "an accept/reject model; (3) rustc: a batch of mutants, each must produce an error with the rule's keyword whose primary span lies inside the mutated item of its "
                 "own file, hosts and a sample of accepted tables must compile; non-trivial+distinct = distinct (rule, host) mutants rejected as required + distinct rejected tables")
     ctx.assumptions = ["diagnostics are checked for file, enclosing item and a keyword of the message, not for exact wording or column",
@@ -107,8 +107,8 @@ def run(ctx):
     tjobs, tmeta = [], {}
     maxm = 3
     for i, combo in enumerate(mutants.small_tables(maxm)):
-        if ctx.quick and len(combo) == 3 and (i % 3):
-            continue  # quick: every table of <=2 methods, every third table of 3 methods
+        if ctx.quick and len(combo) == 3 and (i % 11):
+            continue  # quick: every table of <=2 methods, every 11th table of 3 methods
         jid = f"t{i:05d}"
         tjobs.append((jid, "contract", None, mutants.table_program(combo, i), False))
         tmeta[jid] = combo
@@ -161,7 +161,7 @@ def run(ctx):
     k = 0
     pre = "\n".join(render.R(hosts[0]).prelude()) + "\npub struct Contract;\n#[sylvia::contract]\n"
     for i, combo in enumerate(mutants.small_tables(2)):
-        if mutants.table_model(combo) and i % ctx.pick(7, 2) == 0:
+        if mutants.table_model(combo) and i % ctx.pick(29, 7) == 0:
             mods[f"tab{i:04d}"] = pre + mutants.table_program(combo, i) + "\n"
             meta[f"tab{i:04d}"] = ("table", None, None, None)
     vr = rustc_engine.verdicts(ctx, "c18", mods)
